@@ -7,6 +7,7 @@ package main
 // is blocked (same rule as testing/synctest, which the native replay uses).
 
 import (
+	"strings"
 	"fmt"
 	"go/token"
 	"go/types"
@@ -151,6 +152,14 @@ func (in *Interp) schedule(why string) {
 
 // yield is a potential context switch at a synchronisation point.
 func (in *Interp) yield(why string) {
+	if in.initDepth > 0 {
+		return
+	}
+	in.yield0(why)
+	in.recordOp(why, 0)
+}
+
+func (in *Interp) yield0(why string) {
 	if len(in.gs) <= 1 || in.initDepth > 0 {
 		return
 	}
@@ -164,6 +173,42 @@ func (in *Interp) yield(why string) {
 		return
 	}
 	in.schedule(why)
+}
+
+// opRec is one visible operation in execution order: which goroutine arrived at
+// which synchronisation point. Where lists the source positions of the operation
+// from the innermost frame outwards (repository and harness files only); the native
+// sequencer instruments the first one it can.
+type opRec struct {
+	G     int      `json:"g"`
+	Kind  string   `json:"kind"`
+	Where []string `json:"where,omitempty"`
+	Child int      `json:"child,omitempty"` // for "go": the id of the goroutine created
+}
+
+func (in *Interp) recordOp(kind string, child int) {
+	if len(in.opTrace) > 20000 {
+		return
+	}
+	rec := opRec{G: in.curG.id, Kind: kind, Child: child}
+	for fr := in.curG.top; fr != nil; fr = fr.caller {
+		if fr.cur == nil || fr.fn == nil {
+			continue
+		}
+		pos := fr.cur.Pos()
+		if !pos.IsValid() {
+			continue
+		}
+		p := in.prog.Fset.Position(pos)
+		if !strings.HasPrefix(p.Filename, in.cfg.RepoDir+"/") {
+			continue
+		}
+		rec.Where = append(rec.Where, fmt.Sprintf("%s:%d:%d#%d", strings.TrimPrefix(p.Filename, in.cfg.RepoDir+"/"), p.Line, p.Column, fr.serial))
+		if len(rec.Where) >= 4 {
+			break
+		}
+	}
+	in.opTrace = append(in.opTrace, rec)
 }
 
 // block parks the current goroutine until ready() holds.
@@ -222,8 +267,11 @@ func (in *Interp) spawnNamed(fr *frame, pos token.Pos, fn value, args []value, c
 		g.done = true
 		in.goroutineExit()
 	}()
+	if in.initDepth == 0 {
+		in.recordOp("go", g.id)
+	}
 	if doYield {
-		in.yield("go")
+		in.yield0("go")
 	}
 	return g
 }
